@@ -38,12 +38,12 @@ MOD = "mcverif.checks.c10"
 TOL = 1e-12
 
 BOUNDS = {
-    "quick": {"gen_len": 3, "fix_len": 3, "macro_libs": ["gen1", "gen2", "fix"], "dens": [None, 0.0, 1e-3, 2e-3], "lin_dens": [0.0, 1e-3, 2e-3]},
-    "thorough": {"gen_len": 4, "fix_len": 4, "macro_libs": ["gen1", "gen2", "gen3", "fix"], "dens": [None, 0.0, 5e-4, 1e-3, 2e-3], "lin_dens": [0.0, 5e-4, 1e-3, 2e-3]},
+    "quick": {"gen_len": 3, "fix_len": 3, "macro_libs": ["gen1", "gen2", "fix"], "pattern_libs": ["pat2"], "dens": [None, 0.0, 1e-3, 2e-3], "lin_dens": [0.0, 1e-3, 2e-3]},
+    "thorough": {"gen_len": 4, "fix_len": 4, "macro_libs": ["gen1", "gen2", "gen3", "fix"], "pattern_libs": ["pat2", "pat3"], "dens": [None, 0.0, 5e-4, 1e-3, 2e-3], "lin_dens": [0.0, 5e-4, 1e-3, 2e-3]},
 }
 MACRO_NUCS = ["U235", "FE56", "NA23"]
 MISSING_NUC = "PU239"  # a real nuclide that none of the libraries holds under the probed suffixes
-NUC_LABEL = {"U235": "U235", "FE56": "FE56", "NA23": "NA23", "PU239": "PU39", "DUMP1": "DMP1"}
+NUC_LABEL = {"U235": "U235", "FE56": "FE56", "NA23": "NA23", "PU239": "PU39", "DUMP1": "DMP1", "U238": "U238", "FE54": "FE54", "CR52": "CR52", "NI58": "NI58", "MN55": "MN55"}
 FIX_MACRO_ORDER = ["ISOAA", "gamAA", "pmxAA", "ISOAB", "gamAB", "pmxAB"]
 LIN_COEFFS = [[1.0, 1.0], [2.0, 3.0]]
 
@@ -470,7 +470,11 @@ def check_comp(lib, T, libname, suffix, comp, want_gamma, vs, stats):
     stats["outputs"] = stats.get("outputs", 0) + len(real)
     if "*" in exp:
         stats["missing"] = stats.get("missing", 0) + 1
+        held = [T["nuc"][NUC_LABEL[n] + suffix] for n, d in dens.items() if d and NUC_LABEL[n] + suffix in T["nuc"]]
+        no_pm = any(h["PMATRX"] is None for h in held)  # nothing to say where the library holds no such data
         for q, r in real.items():
+            if no_pm and (q.startswith("edep:") or q.partition(":")[2] in PM_RX):
+                continue
             if not (isinstance(r, tuple) and r[1] == "ValueError"):
                 _bad(vs, "macro-missing-nuclide-not-refused", "%s: %s gives %s although a nuclide with non-zero density is not in the library (ValueError expected)" % (what, q, L.short(r)), case)
                 break
@@ -641,6 +645,8 @@ def eval_tsm(case):
             except Exception as e:  # noqa: BLE001
                 _bad(vs, "total-scatter-missing-%s-raises" % ("n2nScatter" if "n2nScatter" in absent else "matrix"), "lib %s %s.%s (absent: %s): getTotalScatterMatrix raised %s: %s" % (case["lib"], label, attr, absent, type(e).__name__, e), sub)
                 continue
+            if got.ndim == 0 and got == 0 and not want.any():
+                continue  # the sum of no matrices at all
             if got.shape != want.shape or not _close(got, want):
                 _bad(vs, "total-scatter-not-defining-sum", "lib %s %s.%s: getTotalScatterMatrix %s != elastic + inelastic + 2*n2n %s" % (case["lib"], label, attr, L.short(got.tolist()), L.short(want.tolist())), sub)
     return {"viols": vs, "n": n}
@@ -718,6 +724,12 @@ def merge_cases(ctx):
         for seq in itertools.permutations(mem, min(ln, len(mem))):
             out.append({"part": "merge", "pool": pool, "seq": list(seq)})
     gen, fix = [s["name"] for s in L.GEN_POOL], list(L.FIXTURES)
+    # the same fixture file read twice (value-identical second source), directly and with another file in between
+    for f in fix:
+        out.append({"part": "merge", "pool": "fixdup", "seq": [f, f + "#2"]})
+        for y in fix:
+            if y != f:
+                out.append({"part": "merge", "pool": "fixdup", "seq": [f, y, f + "#2"]})
     for g in gen:
         for f in fix:
             out.append({"part": "merge", "pool": "cross", "seq": [g, f]})
@@ -751,6 +763,22 @@ def macro_cases(ctx):
             coeffs = LIN_COEFFS if (lib != "fix" or not ctx.quick) else LIN_COEFFS[1:]  # 33-group fixture: one coefficient pair in quick
             out.append({"part": "lin", "lib": lib, "suffix": "AA", "combos": [[c1, c2, co] for c2 in lin for co in coeffs], "additive": [c1]})
         out.append({"part": "tsm", "lib": lib})
+    # presence patterns: 8 nuclides, one per subset of {elastic, inelastic, n2n} scatter blocks (neutron
+    # and, mirrored, gamma) and with differing optional reactions: every single nuclide, every pair, all
+    for lib in bd["pattern_libs"]:
+        nucs = L.PATTERN_NUCS
+        comps = [{}]
+        for a in nucs:
+            comps += [{a: 1e-3}, {a: 2e-3}, {a: 0.0}]
+        for a, b in itertools.combinations(nucs, 2):
+            comps += [{a: 1e-3, b: 2e-3}, {a: 2e-3, b: 1e-3}]
+        comps.append({n: (1e-3 if i % 2 else 2e-3) for i, n in enumerate(nucs)})
+        comps.append({n: 1e-3 for n in nucs[:4]})
+        comps.append(dict({n: 1e-3 for n in nucs[4:]}, **{MISSING_NUC: 1e-3}))
+        for i in range(0, len(comps), 28):
+            out.append({"part": "macro", "lib": lib, "suffix": "AA", "comps": comps[i : i + 28]})
+        out.append({"part": "lin", "lib": lib, "suffix": "AA", "combos": [[{a: 1e-3}, {b: 2e-3}, co] for a in nucs for b in nucs for co in LIN_COEFFS[1:]], "additive": [comps[-3], comps[-2]]})
+        out.append({"part": "tsm", "lib": lib})
     return out
 
 
@@ -771,7 +799,7 @@ def _spread(cases, heavy):
 def run(ctx):
     bd = BOUNDS[ctx.tier]
     # 0. harness sanity: generated members are exactly what the real readers produce
-    rt = core.pmap(MOD, "_dispatch", [{"part": "roundtrip", "name": s["name"]} for s in L.GEN_POOL])
+    rt = core.pmap(MOD, "_dispatch", [{"part": "roundtrip", "name": n} for n in [s["name"] for s in L.GEN_POOL] + ["p2iso", "p2gam"]])
     ctx.count("generated_members_roundtrip_exact", sum(1 for r in rt if r["ok"]))
     ctx.count("generated_members_roundtrip_checked", sum(1 for r in rt if r["ok"] is not None))
     if any(r["ok"] is False for r in rt):
